@@ -419,6 +419,11 @@ class ViewRepresentation(OperatorPlatform, abc.ABC):
             return self.eval(b)
         # see if b is ShiftPipeAction, so it can handle the mapping (using fact data is not a ShiftPipeAction instance)
         if correct_ordered_first_call and isinstance(b, ShiftPipeAction):
+            import data_algebra.arrow  # local import: arrow imports the data_ops modules
+
+            if isinstance(b, data_algebra.arrow.DataOpArrow):
+                # arrow >> pipeline: the pipeline comes after the arrow, compose as arrows
+                return data_algebra.arrow.DataOpArrow(self).act_on(b)
             return b.act_on(self, correct_ordered_first_call=False)
         # assume a table
         assert len(tables) == 1
